@@ -11,6 +11,9 @@ for j, (spec, mode, consts, num) in enumerate(layers.ad_plans(prop, quick)):
     if mode == "edge":
         write_cfg(c, spec=spec, constants=consts, view="View", constraints=["Bound"], action_constraints=["Edge"])
         k, r = gen_behaviours("GenAdapters", c, work, beh, "edge", tag="g%d" % j, workers=12, timeout=600)
+    elif mode == "tree":
+        write_cfg(c, spec=spec, constants=consts, constraints=["BoundTree"], invariants=["PrintAtDepth"])
+        k, r = gen_behaviours("GenAdapters", c, work, beh, "tree", tag="g%d" % j, workers=12, timeout=600)
     else:
         write_cfg(c, spec=spec, constants=consts, constraints=["BoundTree"], invariants=["PrintAtDepth"])
         k, r = gen_behaviours("GenAdapters", c, work, beh, "sim", num=num, depth=consts["Depth"] + 1, seed=1, tag="g%d" % j, timeout=600)
